@@ -11,24 +11,30 @@ let parse_desc s =
   match String.split_on_char ',' s with
   | [a; b; c; d] -> { d_mt = ni a; d_dig = ni b; d_size = ni c; d_ann = ni d }
   | _ -> failwith ("desc " ^ s)
-let parse_key s =
-  match String.split_on_char ',' s with
-  | [a; b; c] -> ((ni a, ni b), ni c)
+let parse_key_t s =
+  let (ks, title) = match String.split_on_char '@' s with
+    | [k] -> (k, 0) | [k; t] -> (k, int_of_string t) | _ -> failwith ("key " ^ s) in
+  match String.split_on_char ',' ks with
+  | [a; b; c] -> (((ni a, ni b), ni c), title)
   | _ -> failwith ("key " ^ s)
-let parse_links l = if l = "-" || l = "" then [] else List.map parse_key (String.split_on_char '+' l)
-(* blob = hash,len,links[~prehash,prelinks] *)
+let parse_key s = fst (parse_key_t s)
+let parse_links_t l = if l = "-" || l = "" then [] else List.map parse_key_t (String.split_on_char '+' l)
+let untitled l = List.map fst l
+let titled l = List.map (fun (k, t) -> (k, n_of_int t)) (List.filter (fun (_, t) -> t <> 0) l)
+(* blob = hash,len,links[~prehash,prelinks]   link = key[@title] *)
 let parse_blob s =
   let (main, pre) = match String.split_on_char '~' s with
     | [m] -> (m, None) | [m; p] -> (m, Some p) | _ -> failwith ("blob " ^ s) in
   match String.split_on_char ',' main with
   | a :: b :: rest ->
-    let links = parse_links (String.concat "," rest) in
+    let links = parse_links_t (String.concat "," rest) in
     let (ph, pl) = match pre with
       | None -> (ni a, links)
       | Some p -> (match String.split_on_char ',' p with
-          | h :: r -> (ni h, parse_links (String.concat "," r))
+          | h :: r -> (ni h, parse_links_t (String.concat "," r))
           | _ -> failwith ("blob " ^ s)) in
-    { b_hash = ni a; b_len = ni b; b_links = links; b_pre_hash = ph; b_pre_links = pl }
+    { b_hash = ni a; b_len = ni b; b_links = untitled links; b_pre_hash = ph; b_pre_links = untitled pl;
+      b_tl = titled links; b_pre_tl = titled pl }
   | _ -> failwith ("blob " ^ s)
 let parse_ref s =
   if s = "e" then REmpty
@@ -81,6 +87,7 @@ let show_fout = function
   | FO o -> show_out o
   | FE FDuplicateName -> "err:dupname"
   | FE FOverwrite -> "err:overwrite"
+  | FE FTraversal -> "err:traversal"
 let is_file store = String.length store = 6 && String.sub store 0 4 = "file"
 let file_stepper store = file_step true (store.[4] = '1') (store.[5] = '1')
 
@@ -97,7 +104,11 @@ let run_store store ops =
   | "oci" ->
     let u = build_u ops in
     let (_, outs) = run oci_step oci_init ops in
-    let (_, souts) = run (ospec_step u) ospec_init ops in
+    (* the specification is stated for canonical histories (one descriptor per digest) *)
+    let canonical = List.for_all (function
+        | Push (d, _) | Fetch d | Exists d | Preds d | Delete d | Tag (d, _) -> gkey_eqb (gk d) (u d.d_dig)
+        | _ -> true) ops in
+    let (_, souts) = if canonical then run (ospec_step u) ospec_init ops else ((), outs) |> fun (_, o) -> (ospec_init, o) in
     (List.map show_out outs, List.map show_out souts)
   | _ -> failwith "store"
 
@@ -195,7 +206,8 @@ let () =
                (fun s -> String.concat "," (List.map (fun n -> string_of_int (ii n)) (List.sort compare s.f_names)) ^ "#" ^
                          String.concat "," (List.sort compare (List.map (fun (g, p) -> Printf.sprintf "%d>%d" (ii g) (ii p)) s.f_d2p)) ^ "#" ^
                          show_content_mem s.f_cas ^ "#" ^ show_tags s.f_res.r_index ^ "#" ^ show_graph s.f_graph ^ "#" ^
-                         String.concat "," (List.sort compare (List.map (fun (p, _) -> string_of_int (ii p)) s.f_disk))) evs probe
+                         String.concat "," (List.sort compare (List.map (fun (p, c) -> Printf.sprintf "%d=%d" (ii p) (ii c.b_hash)) s.f_disk)) ^ "#" ^
+                         String.concat "," (List.sort compare (List.map (fun (k, _) -> show_key_t (key_t k)) s.f_graph.g_nodes))) evs probe
            else
            match store with
            | "mem" ->
